@@ -65,11 +65,120 @@ def grid(tier):
                             cases.append(dict(N=N, k=k, T=T, where=where, at=at, exc=exc,
                                               output="none" if j % 5 == 0 else "file", pre=PRE[(idx + 3 * v) % len(PRE)] if quick else PRE[v],
                                               pause=(j % 3 == 0), probes=2 if j % 2 else 0))
+    # the fresh-name rule for other spellings of the requested path (no fault injected): relative with "./", without an
+    # extension, inside a directory whose name contains a dot, inside a directory that does not exist yet
+    for spelling in SPELLINGS:
+        for taken in (0, 1, 2):
+            for N in (1, 3):
+                cases.append(dict(kind="naming", spelling=spelling, taken=taken, N=N, k=2))
     return cases
+
+
+SPELLINGS = ["out.h5", "./out.h5", "run", "./run", "data.v2/run", "data.v2/out.h5", "new dir/sub/out.h5", "out.v1.h5", "../cwd/run.dat"]
 
 
 class Injected(RuntimeError):
     pass
+
+
+class Hang(Exception):
+    pass
+
+
+def _naming(spec, res):
+    """An uninterrupted short run asked to write to ``spelling`` while 0, 1 or 2 of the names it would use are taken."""
+    import signal
+    import tdgl
+
+    N, k = spec["N"], spec["k"]
+    dev = build.make_device(dict(BASE_DEVICE))
+    res.label("naming", f"path spelling {spec['spelling']!r}", f"{spec['taken']} name(s) taken")
+    res.nontrivial = spec["taken"] >= 1
+    with sim.workdir() as (cwd, tmp):
+        P = spec["spelling"]
+        pdir = os.path.dirname(P) or "."
+        pre_hash = {}
+
+        def snapshot():
+            out = []
+            for base, dirs, files in os.walk(cwd):
+                out += [os.path.relpath(os.path.join(base, f), cwd) for f in files]
+            return sorted(out)
+
+        def occupy(path, j):
+            os.makedirs(os.path.dirname(path) or ".", exist_ok=True)
+            with open(path, "wb") as f:
+                f.write(hashlib.sha256(f"{path}{j}".encode()).digest() * 40)
+            pre_hash[os.path.relpath(path, cwd)] = _hash(path)
+
+        def run_once():
+            opts = build.make_options(dict(dt_c=0.2, nsteps=N, save_every=k, adaptive=False, field_units="mT", current_units="uA"), dev, output_file=P)
+
+            def on_alarm(signum, frame):
+                raise Hang("no result after 60 s")
+
+            old = None
+            try:
+                old = signal.signal(signal.SIGALRM, on_alarm)
+                signal.alarm(60)
+            except ValueError:
+                old = None
+            try:
+                return tdgl.solve(dev, opts, applied_vector_potential=0.4, terminal_currents=dict(src=5.0, drn=-5.0))
+            finally:
+                if old is not None:
+                    signal.alarm(0)
+                    signal.signal(signal.SIGALRM, old)
+
+        # names are taken by earlier identical requests (their outputs are then pre-existing files for the run examined)
+        for j in range(spec["taken"]):
+            if j == 0:
+                occupy(P, j)
+            else:
+                before = snapshot()
+                try:
+                    run_once()
+                except BaseException as exc:  # noqa: BLE001
+                    res.fail("C15.naming_run", f"request {j + 1} for {P!r} with {j} name(s) taken: {type(exc).__name__}: {exc}")
+                    return res
+                for n in snapshot():
+                    if n not in before:
+                        pre_hash[n] = _hash(os.path.join(cwd, n))
+        before = snapshot()
+        try:
+            sol = run_once()
+        except Hang as exc:
+            res.fail("C15.naming_hang", f"output_file={P!r} with {spec['taken']} name(s) taken: the search for a fresh name does not end ({exc})")
+            return res
+        except BaseException as exc:  # noqa: BLE001
+            res.fail("C15.naming_run", f"output_file={P!r} with {spec['taken']} name(s) taken: {type(exc).__name__}: {exc}")
+            return res
+        after = snapshot()
+        for n, h in pre_hash.items():
+            if not os.path.exists(os.path.join(cwd, n)) or _hash(os.path.join(cwd, n)) != h:
+                res.fail("C15.existing_modified", f"pre-existing file {n} was modified or removed (output_file={P!r})")
+        new = [n for n in after if n not in before]
+        if len(new) != 1 or new[0].endswith(".tmp"):
+            res.fail("C15.directory", f"output_file={P!r}, taken {sorted(pre_hash)}: new files {new}, expected exactly one new output file")
+            return res
+        want_dir = os.path.normpath(os.path.join(cwd, pdir))
+        got = os.path.normpath(os.path.join(cwd, new[0]))
+        if os.path.dirname(got) != want_dir:
+            res.fail("C15.directory", f"output_file={P!r}: the output {new[0]} is not in the requested directory {pdir}")
+        if spec["taken"] == 0 and got != os.path.normpath(os.path.join(cwd, P)):
+            res.fail("C15.requested_path", f"output_file={P!r} (free): the output was written to {new[0]}")
+        if os.path.normpath(os.path.abspath(sol.path)) != got:
+            res.fail("C15.solution_path", f"output_file={P!r}: Solution.path={sol.path!r} but the new file is {new[0]}")
+        try:
+            L = tdgl.Solution.from_hdf5(got)
+            want_frames = len(sorted(set(range(0, N + 1, k)) | {N}))
+            if tuple(int(v) for v in L.data_range) != (0, want_frames - 1):
+                res.fail("C15.frames", f"output_file={P!r}: the new file holds data range {L.data_range}, expected {want_frames} frames")
+        except Exception as exc:  # noqa: BLE001
+            res.fail("C15.unreadable", f"output_file={P!r}: the new file {new[0]} cannot be loaded: {type(exc).__name__}: {exc}")
+        if sorted(os.listdir(tmp)):
+            res.fail("C15.tempdir_left", f"temporary directory entries remain: {sorted(os.listdir(tmp))}")
+    return res
 
 
 def _hash(path):
@@ -81,6 +190,8 @@ def check_case(spec):
     from tdgl.solver.runner import DataHandler
 
     res = Result()
+    if spec.get("kind") == "naming":
+        return _naming(spec, res)
     N, k, T = spec["N"], spec["k"], spec["T"]
     d = dict(BASE_DEVICE)
     if spec["probes"]:
